@@ -385,3 +385,36 @@ func (p *XPath) EvalBool(v ssa.Value) (val bool, ok bool) {
 	}
 	return false, false
 }
+
+// pathConst resolves v to a constant along the path: constants, and phis through the
+// predecessor the path actually took.
+func pathConst(p *XPath, v ssa.Value) (string, bool) {
+	for depth := 0; depth < 16; depth++ {
+		if k, ok := constOf(v); ok {
+			return k, true
+		}
+		if k, ok := p.KnownConst(v); ok {
+			return k, true
+		}
+		ph, isPhi := v.(*ssa.Phi)
+		if !isPhi {
+			return "", false
+		}
+		found := false
+		for i := len(p.Blocks) - 1; i > 0 && !found; i-- {
+			if p.Blocks[i] == ph.Block() {
+				for j, pred := range ph.Block().Preds {
+					if pred == p.Blocks[i-1] {
+						v = ph.Edges[j]
+						found = true
+						break
+					}
+				}
+			}
+		}
+		if !found {
+			return "", false
+		}
+	}
+	return "", false
+}
